@@ -142,7 +142,11 @@ def run_helper(case):
         if case["typ"] == "templates":
             ev = {"typ": "templates", "num": case["num"], "keys": [], "exclude": [[ord(v), e] for v, e in case["exclude"]], "outcome": "ok"}
             try:
-                ex = [P.MathyTermTemplate(variable=v, exponent=(e or None)) for v, e in case["exclude"]]
+                # exclusions as plain templates, or (every other case) as instances of the exported subclass MathyProblemTerm
+                if (case["num"] + len(case["exclude"]) + case.get("seed", 0)) % 2 and hasattr(P, "MathyProblemTerm"):
+                    ex = [P.MathyProblemTerm(variable=v, exponent=(e or None)) for v, e in case["exclude"]]
+                else:
+                    ex = [P.MathyTermTemplate(variable=v, exponent=(e or None)) for v, e in case["exclude"]]
                 ts = P.get_rand_term_templates(case["num"], exclude_like=ex, common_variables=case["common"], exponent_probability=case["ep"])
                 ev["keys"] = [[ord(t.variable[0]) if t.variable else 0, int(t.exponent) if t.exponent is not None and float(t.exponent) == int(t.exponent) else (0 if t.exponent is None else -99)] for t in ts]
             except EnvironmentError:
